@@ -452,7 +452,7 @@ type c13Profile struct {
 	hasSub                                int
 	sub                                   int64
 	labels                                []c13KV  // spec.labels (distinct keys)
-	keyMap                                [][2]int // spec.labelKeysMapping old -> new (at most one entry: Go map order)
+	keyMap                                [][2]int // spec.labelKeysMapping old -> new (one entry, or two order-independent ones)
 	suffixes                              []c13KV  // spec.labelSuffixes (distinct keys)
 	hasPatch                              bool
 	patchLabels                           []c13KV
@@ -660,7 +660,19 @@ func c13GenProfiles(r *vRand, pod *corev1.Pod) []c13Profile {
 		}
 		// labelKeysMapping: one entry (old -> new); old == new is legal
 		if r.Chance(1, 8) {
-			p.keyMap = append(p.keyMap, [2]int{r.Intn(3), r.Intn(3)})
+			from := r.Intn(3)
+			p.keyMap = append(p.keyMap, [2]int{from, r.Intn(3)})
+			// a second entry (the map is keyed by the old key, so another source) that maps a key onto
+			// itself (creating it with "" when missing) and shares no key with the first entry: the two
+			// assignments are independent of the order in which Go iterates the map
+			if r.Chance(1, 3) {
+				for b := 0; b < 3; b++ {
+					if b != from && b != p.keyMap[0][1] {
+						p.keyMap = append(p.keyMap, [2]int{b, b})
+						break
+					}
+				}
+			}
 		}
 		// labelSuffixes
 		if r.Chance(1, 8) {
